@@ -312,8 +312,8 @@ def build_items(repo, bdir):
 
 
 HEADER = """(* GENERATED by tools/srcfacts.py from /repo's current sources - do not edit. *)
-From Coq Require Import List ZArith Bool String Ascii.
-From CgreenVerif Require Import Defs.
+From Coq Require Import List ZArith NArith Bool String Ascii.
+From CgreenVerif Require Import Defs CStr.
 Import ListNotations.
 Local Open Scope Z_scope.
 
